@@ -65,7 +65,7 @@ static std::string apply(const KeySpec &k, jwt_alg_t alg, int pay, std::string t
   case M_PAD_JUNK: { static const char *J[] = {"=", "==", "=A", "=.", "==AAAA", "=\x01", "= "}; return t + J[ua % 7]; }
   case M_INSERT_DOT: { size_t pos = ua % (t.size() + 1); t.insert(pos, "."); return t; }
   case M_SIG_EMPTY: return tp.ok ? reb(tp.h, tp.p, "") : t;
-  case M_SIG_ZERO: return tp.ok ? reb(tp.h, tp.p, b64u_enc(std::string(tp.sdec.size(), '\0'))) : t;
+  case M_SIG_ZERO: { static const char FILL[] = {'\0', '\xff', '\x80', '\x7f'}; return tp.ok ? reb(tp.h, tp.p, b64u_enc(std::string(tp.sdec.size(), FILL[ua % 4]))) : t; }   // constant fill: every integer in the signature is 0 / has its top bit set / is maximal
   case M_SIG_RANDOM: { if (!tp.ok) return t; Rng r(ua * 77 + ub); return reb(tp.h, tp.p, b64u_enc(r.bytes(tp.sdec.size()))); }
   case M_SIG_WRONGLEN: { if (!tp.ok) return t; Rng r(ua); static const int D[] = {-33, -2, -1, 1, 2, 32, 34, 64}; int n = (int)tp.sdec.size() + D[ub % 8]; if (n < 1) n = 1; return reb(tp.h, tp.p, b64u_enc(r.bytes(n))); }
   case M_SIG_OTHER_TOKEN: { if (!tp.ok) return t; TokParts o = split_token(base_token(k, alg, (pay + 1 + ua % (NPAY - 1)) % NPAY)); return reb(tp.h, tp.p, o.s); }
